@@ -89,11 +89,30 @@ def install_dispatch_probe():
         status["dispatch_installed"] = "yes"
         return
 
+    try:
+        sig = inspect.signature(orig)
+        has = {"types", "lines"} <= set(sig.parameters)
+    except Exception:
+        sig, has = None, False
+    if not has:
+        status["dispatch"] = "skipped (no types/lines parameters)"
+        status["dispatch_installed"] = "yes"
+        return
+
     @functools.wraps(orig)
-    def wrapper(types, lines):
-        lines = list(lines)
+    def wrapper(*a, **k):
+        # whatever the signature has become: bind, materialise `lines` once, pass everything else through untouched
+        try:
+            ba = sig.bind(*a, **k)
+            types = tuple(ba.arguments["types"])
+            lines = list(ba.arguments["lines"])
+            ba.arguments["types"], ba.arguments["lines"] = types, lines
+            a, k = ba.args, ba.kwargs
+        except Exception:
+            status["dispatch"] = "bind failed"
+            return orig(*a, **k)
         before = env.LOG.track_warnings_for_thread()
-        m = orig(types, lines)
+        m = orig(*a, **k)
         try:
             per_kind = {t.__qualname__: len(m[t]) for t in types}
             _log().append({"probe": "dispatch", "kinds": [t.__qualname__ for t in types], "types": list(types), "lines": lines,
